@@ -458,6 +458,21 @@ class C05(Check):
                     violation(res, "C05/exclusion", f"C05/exclusion:{kind}-by-{a_cls}-during-exchange-of-{o_cls}:{what}",
                               f"t={t:.4f}: task {actor} issued transport {kind} while the exchange of task {owner} was still in progress")
                     break
+        # ---- no request goes on the wire while ANOTHER task still sits in a read on that client's transport (an exchange that
+        # outlives its caller - e.g. one that was shielded from the caller's cancellation - would take the next caller's reply)
+        open_reads: dict[str, int] = {}
+        for e in ev:
+            seq, t, actor, kind, d = e
+            if kind == "read_begin":
+                open_reads[actor] = open_reads.get(actor, 0) + 1
+            elif kind in ("read", "read_timeout", "read_error", "read_cancelled"):
+                open_reads[actor] = max(open_reads.get(actor, 0) - 1, 0)
+            elif kind == "write":
+                others = sorted(a for a, n in open_reads.items() if n > 0 and a != actor)
+                if others:
+                    violation(res, "C05/exclusion", "C05/exclusion:write-while-another-task-still-reads",
+                              f"t={t:.4f}: task {actor} transmitted a request while task {others[0]} was still blocked in a read on the client's transport")
+                    break
         # ---- an ECU stuck in responsePending: the caller gives up at the client's limit (120 pending replies, 0.3 s apart
         # here) and releases the client; it does not keep the others waiting for as long as the ECU goes on
         if getattr(holder.get("resp"), "forever_started", None):
